@@ -190,7 +190,10 @@ def mask_case(draw, dyadic):
         c = 10 ** draw(st.floats(-3, 3))
         if nph % 2 == 0 and draw(st.booleans()):
             c = -c
-    return {'sig': sig, 'mode': draw(st.sampled_from(['ratio_sig', 'ratio_imf'])), 'mask_amp': draw(st.sampled_from([1, 0.5, 2.0])),
+    amp = draw(st.sampled_from([1, 0.5, 2.0, 'array', 'array']))
+    if amp == 'array':
+        amp = np.array([1.0, 0.5, 2.0, 1.5, 0.75])
+    return {'sig': sig, 'mode': draw(st.sampled_from(['ratio_sig', 'ratio_imf'])), 'mask_amp': amp,
             'freqs': freqs, 'nphases': nph, 'max_imfs': draw(st.integers(2, 4)), 'c': c,
             'opts': {'stop_method': draw(st.sampled_from(['sd', 'fixed'])), 'max_iters': draw(st.sampled_from([3, 8, 1000]))}}
 
@@ -222,6 +225,7 @@ def oracle_mask(case, rec):
         raise Discard('convergence error')
     dy = (np.log2(abs(c)) % 1 == 0) and c > 0
     rec.cls('mode=' + case['mode'])
+    rec.cls('amp=' + ('array (one object for both calls)' if isinstance(case['mask_amp'], np.ndarray) else 'scalar'))
     rec.cls('freqs=' + (case['freqs'] if isinstance(case['freqs'], str) else 'list' if isinstance(case['freqs'], list) else 'float'))
     if dy:
         if A.shape != B.shape or not np.array_equal(B, c * A):
@@ -235,7 +239,7 @@ def oracle_mask(case, rec):
     for j in range(K):
         res = x - A[:, :j].sum(axis=1)
         sd = x.std() if (case['mode'] == 'ratio_sig' or j == 0) else A[:, j - 1].std()
-        amp = case['mask_amp'] * sd
+        amp = (case['mask_amp'][j] if isinstance(case['mask_amp'], np.ndarray) else case['mask_amp']) * sd
         if isinstance(case['freqs'], list):
             z = case['freqs'][j]
         elif isinstance(case['freqs'], float):
